@@ -245,6 +245,8 @@ PROPS["C15"] = {
     "units": [
         {"name": "C15Raw", "pkg": TR, "test": "TestVerifC15Raw", "kind": "rapid",
          "checks": {"quick": 10000, "thorough": 150000}, "shards": {"quick": 2, "thorough": 16}},
+        # two connections accepted from one TracingHTTP2Listener: what happens on one does not disturb the held-back trace of the other
+        {"name": "C15Listener", "pkg": TR, "test": "TestVerifC15Listener", "kind": "enum"},
         {"name": "C15Exchange", "pkg": TR, "test": "TestVerifC15Exchange", "kind": "rapid",
          "checks": {"quick": 2500, "thorough": 40000}, "shards": {"quick": 4, "thorough": 16}},
         {"name": "C15Fuzz", "pkg": TR, "test": "FuzzVerifC15Conn", "kind": "fuzz", "fuzz_target": "FuzzVerifC15Conn",
